@@ -92,103 +92,64 @@ Proof. reflexivity. Qed.
 Lemma wkc_no_equals : forall ls impl q, split_eq q = None -> wkc_render_get ls impl (Some q) = Ok (ls ++ impl_info_links impl).
 Proof. intros ls impl q H. unfold wkc_render_get. rewrite H. reflexivity. Qed.
 Lemma wkc_filter_is_filter_links : forall ls impl q k v, split_eq q = Some (k, v) ->
-  wkc_render_get ls impl (Some q) = filter_links k v (ls ++ impl_info_links impl).
+  wkc_render_get ls impl (Some q) = Ok (filter_links k v (ls ++ impl_info_links impl)).
 Proof. intros ls impl q k v H. unfold wkc_render_get. rewrite H. reflexivity. Qed.
-
-(* ------------------------------------------------------------------ RFC 6690 section 4.1 as a specification *)
-Definition pat_match (is_prefix : bool) (pat x : string) : bool := if is_prefix then String.prefix pat x else String.eqb x pat.
-(* the string values of the attribute named k (an attribute without value has nothing to compare against) *)
-Definition str_values (l : link) (k : string) : list string :=
-  flat_map (fun a : attr => if String.eqb (fst a) k then match snd a with Some s => [s] | None => [] end else []) (snd l).
-Definition rfc_values (l : link) (k : string) : list string :=
-  if String.eqb k "href" then [fst l]
-  else if mem_str k ["rt"; "if"; "ct"]%string then flat_map split_space (str_values l k)
-  else str_values l k.
-(* a link matches k=v when some value of the attribute (some space-separated item for rt/if/ct, the href for href) equals v,
-   or starts with v minus the star when v ends in "*"; a missing attribute matches nothing *)
-Definition rfc6690_match (k v : string) (l : link) : bool :=
-  let is_prefix := ends_with_star v in
-  let pat := if is_prefix then drop_last_char v else v in
-  existsb (pat_match is_prefix pat) (rfc_values l k).
-
-(* side conditions under which the implementation agrees with the specification *)
-Definition link_ok (k : string) (l : link) : Prop :=
-  (forall a, In a (snd l) -> lower (fst a) = fst a) /\           (* attribute names in lower case *)
-  ~ In None (attr_values l k) /\                                  (* the filtered attribute is not a valueless one (finding: obs=* crashes) *)
-  (List.length (attr_values l k) <= 1)%nat.                       (* link descriptions come from dicts: one pair per name *)
-Definition key_ok (k v : string) : Prop :=
-  lower k = k /\
-  mem_str k SINGLE_VALUED_ATTRS = false /\                        (* finding: title/rel/... are compared character by character *)
-  mem_str k LINK_METHODS = false /\ String.eqb k "attr_pairs" = false /\   (* finding: Python attribute names crash *)
-  (mem_str k ["rt"; "if"; "ct"]%string = true ->                  (* finding: an empty pattern matches links lacking rt/if/ct *)
-   (if ends_with_star v then drop_last_char v else v) <> ""%string).
-
-Lemma any_match_strs : forall pfx pat xs, any_match pfx pat (map VStr xs) = Ok (existsb (pat_match pfx pat) xs).
+(* the WKC resource never fails, whatever the (single) query *)
+Lemma wkc_total : forall ls impl q, exists r, wkc_render_get ls impl q = Ok r.
 Proof.
-  intros pfx pat. induction xs as [|x xs IH]; [reflexivity|].
-  cbn [map any_match matchexp bind existsb]. fold (pat_match pfx pat x). destruct (pat_match pfx pat x); [reflexivity | exact IH].
+  intros ls impl [q|]; unfold wkc_render_get; [|eauto]. destruct (split_eq q) as [[k v]|]; eauto.
 Qed.
 
-Lemma attr_values_canon : forall l k, (forall a, In a (snd l) -> lower (fst a) = fst a) -> lower k = k ->
-  ~ In None (attr_values l k) -> attr_values l k = map Some (str_values l k).
+(* ------------------------------------------------------------------ RFC 6690 section 4.1 as a declarative specification *)
+(* the search pattern v accepts the string x: equality, or prefix when v ends in "*" *)
+Definition pat_ok (v x : string) : Prop :=
+  if ends_with_star v then String.prefix (drop_last_char v) x = true else x = v.
+(* x is something the filter name k denotes on link l: the href for "href"; otherwise a value of the attribute named k
+   (names are case-insensitive; an attribute without value denotes nothing; a missing attribute denotes nothing) — for the
+   space-separated list attributes rt / if / ct / rel each item of the value *)
+Definition candidate (k : string) (l : link) (x : string) : Prop :=
+  (k = "href"%string /\ x = fst l) \/
+  (k <> "href"%string /\ exists key s, In (key, Some s) (snd l) /\ lower key = lower k /\
+                         if mem_str k LIST_VALUED_ATTRS then In x (split_space s) else x = s).
+Definition Matches (k v : string) (l : link) : Prop := exists x, candidate k l x /\ pat_ok v x.
+
+Lemma matchexp_pat_ok : forall v x,
+  matchexp (ends_with_star v) (if ends_with_star v then drop_last_char v else v) x = true <-> pat_ok v x.
 Proof.
-  intros [h attrs] k. unfold attr_values, str_values. cbn [snd]. intros Hc Hk Hn. rewrite Hk in Hn |- *.
-  induction attrs as [|[key val] attrs IH]; [reflexivity|].
-  cbn [filter flat_map fst snd] in *.
-  assert (Hkey : lower key = key) by (apply (Hc (key, val)); left; reflexivity).
-  rewrite Hkey in Hn |- *.
-  destruct (String.eqb key k).
-  - cbn [map] in *. destruct val as [s|].
-    + cbn [app map]. f_equal. apply IH; [intros a Ha; apply Hc; right; exact Ha | intro H; apply Hn; right; exact H].
-    + exfalso. apply Hn. left. reflexivity.
-  - apply IH; [intros a Ha; apply Hc; right; exact Ha | exact Hn].
+  intros v x. unfold matchexp, pat_ok. destruct (ends_with_star v); [reflexivity | apply String.eqb_eq].
+Qed.
+Lemma attr_values_In : forall l k s, In s (attr_values l k) <-> exists key, In (key, Some s) (snd l) /\ lower key = lower k.
+Proof.
+  intros [h attrs] k s. unfold attr_values. cbn [snd]. rewrite in_flat_map. split.
+  - intros [[key val] [Hin H]]. cbn [fst snd] in H. destruct (String.eqb (lower key) (lower k)) eqn:E; [|destruct H].
+    destruct val as [s'|]; [|destruct H]. destruct H as [H|[]]. subst s'. exists key. split; [exact Hin | apply String.eqb_eq; exact E].
+  - intros [key [Hin E]]. exists (key, Some s). split; [exact Hin|]. cbn [fst snd]. rewrite E, String.eqb_refl. left. reflexivity.
 Qed.
 
-Lemma all_strs_some : forall xs, all_strs (map Some xs) = Ok xs.
-Proof. induction xs as [|x xs IH]; [reflexivity|]. cbn [map all_strs]. rewrite IH. reflexivity. Qed.
-Lemma prefix_empty_r : forall pat, pat <> ""%string -> String.prefix pat "" = false.
-Proof. intros [|c r] H; [congruence | reflexivity]. Qed.
-Lemma pat_match_empty : forall pfx pat, pat <> ""%string -> pat_match pfx pat "" = false.
+Lemma link_matches_spec : forall k v l, link_matches k v l = true <-> Matches k v l.
 Proof.
-  intros pfx pat H. unfold pat_match. destruct pfx; [apply prefix_empty_r; exact H|].
-  destruct pat; [congruence | reflexivity].
+  intros k v l. unfold link_matches, Matches, candidate.
+  destruct (mem_str k LIST_VALUED_ATTRS) eqn:Elist.
+  - assert (Hne : k <> "href"%string) by (intro E; subst k; discriminate Elist).
+    rewrite existsb_exists. split.
+    + intros [x [Hin Hm]]. apply in_flat_map in Hin. destruct Hin as [s [Hs Hx]]. apply attr_values_In in Hs. destruct Hs as [key [Hk El]].
+      exists x. split; [|apply matchexp_pat_ok; exact Hm]. right. split; [exact Hne|]. exists key, s. auto.
+    + intros [x [[[E _] | [_ [key [s [Hk [El Hx]]]]]] Hp]]; [congruence|].
+      exists x. split; [|apply matchexp_pat_ok; exact Hp]. apply in_flat_map. exists s. split; [apply attr_values_In; eauto | exact Hx].
+  - destruct (String.eqb_spec k "href") as [E|Hne].
+    + rewrite matchexp_pat_ok. split.
+      * intro H. exists (fst l). split; [left; auto | exact H].
+      * intros [x [[[_ Hx] | [Hn _]] Hp]]; [subst x; exact Hp | congruence].
+    + rewrite existsb_exists. split.
+      * intros [x [Hin Hm]]. apply attr_values_In in Hin. destruct Hin as [key [Hk El]].
+        exists x. split; [|apply matchexp_pat_ok; exact Hm]. right. split; [exact Hne|]. exists key, x. auto.
+      * intros [x [[[E _] | [_ [key [s [Hk [El Hx]]]]]] Hp]]; [congruence|]. subst s.
+        exists x. split; [apply attr_values_In; eauto | apply matchexp_pat_ok; exact Hp].
 Qed.
 
-Lemma link_matches_spec : forall k v l, key_ok k v -> link_ok k l -> link_matches k v l = Ok (rfc6690_match k v l).
-Proof.
-  intros k v l [Hk [Hsv [Hlm [Hap Hpat]]]] [Hc [Hn Hlen]].
-  unfold link_matches, rfc6690_match, rfc_values.
-  set (pfx := ends_with_star v) in *. set (pat := if pfx then drop_last_char v else v) in *.
-  pose proof (attr_values_canon l k Hc Hk Hn) as Hav.
-  destruct (mem_str k ["rt"; "if"; "ct"]%string) eqn:Ert.
-  - assert (Hne : String.eqb k "href" = false).
-    { destruct (String.eqb_spec k "href") as [->|]; [discriminate Ert | reflexivity]. }
-    rewrite Hne. unfold space_parts. rewrite Hav, all_strs_some. cbn [bind].
-    rewrite Hav, map_length in Hlen.
-    destruct (str_values l k) as [|s [|s2 rest]]; [| |simpl in Hlen; lia].
-    + cbn [join String.concat flat_map existsb]. change (split_space "") with [""%string].
-      cbn [map any_match matchexp bind]. fold (pat_match pfx pat ""). rewrite (pat_match_empty pfx pat (Hpat eq_refl)). reflexivity.
-    + cbn [join String.concat flat_map]. rewrite app_nil_r. apply any_match_strs.
-  - destruct (String.eqb k "href") eqn:Eh.
-    + cbn [matchexp existsb]. fold (pat_match pfx pat (fst l)). rewrite orb_false_r. reflexivity.
-    + unfold getattr_iter. rewrite Hap, Hlm, Hsv, Hav. cbn [bind].
-      replace (map opt_to_pyv (map Some (str_values l k))) with (map VStr (str_values l k)) by (rewrite map_map; reflexivity).
-      apply any_match_strs.
-Qed.
-
-Lemma filter_links_spec : forall k v ls, key_ok k v -> Forall (link_ok k) ls ->
-  filter_links k v ls = Ok (filter (rfc6690_match k v) ls).
-Proof.
-  intros k v ls Hk. induction ls as [|l ls IH]; intro HF; [reflexivity|].
-  inversion HF as [|? ? Hl HF']; subst. cbn [filter_links filter].
-  rewrite (link_matches_spec k v l Hk Hl). cbn [bind]. rewrite (IH HF'). cbn [bind]. reflexivity.
-Qed.
-
-(* the href filter needs no side condition at all *)
-Lemma filter_links_href : forall v ls, filter_links "href" v ls = Ok (filter (rfc6690_match "href" v) ls).
-Proof.
-  intros v. induction ls as [|l ls IH]; [reflexivity|].
-  cbn [filter_links filter]. unfold link_matches at 1. cbn [mem_str existsb String.eqb Ascii.eqb Bool.eqb orb].
-  cbn [matchexp bind]. rewrite IH. cbn [bind].
-  unfold rfc6690_match, rfc_values. cbn [String.eqb Ascii.eqb Bool.eqb existsb]. unfold pat_match. rewrite orb_false_r. reflexivity.
-Qed.
+(* a single filter returns exactly the matching subset, in listing order — for every name, pattern and list of links *)
+Lemma filter_links_spec : forall k v ls l, In l (filter_links k v ls) <-> In l ls /\ Matches k v l.
+Proof. intros k v ls l. unfold filter_links. rewrite filter_In, link_matches_spec. reflexivity. Qed.
+Lemma filter_links_sublist : forall k v ls, exists keep : link -> bool,
+  filter_links k v ls = filter keep ls /\ forall l, keep l = true <-> Matches k v l.
+Proof. intros k v ls. exists (link_matches k v). split; [reflexivity | apply link_matches_spec]. Qed.
